@@ -257,6 +257,7 @@ def spec_eval(ev, text, extra=None, frame=None):
     if text not in _parsed:
         _parsed[text] = ast.parse(text.strip(), mode="eval").body
     sub = ev.sub(pure=True, spec=True, frame=frame)
+    sub.bound.update(ev.frame.root().loop_vars)
     if extra:
         sub.bound.update(extra)
     v = sub.expr(_parsed[text])
@@ -402,7 +403,9 @@ def apply_contract(ev: Ev, contract: Contract, args, kwargs, node):
             for text in xt.get("ensures", []):
                 st.assume(with_old(lambda: spec_eval(cev, text, {"exc": payload})))
         raise PyRaise(exc, payload, getattr(node, "lineno", 0))
-    if contract.returns is not None:
+    if callable(contract.returns):
+        result = contract.returns(ev, env)
+    elif contract.returns is not None:
         result = st.fresh(contract.returns, contract.id + ".result")
     else:
         result = NONE
